@@ -41,6 +41,14 @@ def run(chk, repo):
     chk.doc("R07.3", "address identity")
     chk.doc("R07.4", "no atomic add on prefixed formats")
     chk.doc("R07.5", "swap, then sign-extend")
+    chk.doc("R07.6", "one implementation of the byte-order conversion")
+    override_rule(chk, repo, "R07.6", E + "Expression", [
+        "switch_endian"], "the swap rules established here (swap once per "
+        "differing byte order, at the declared width, then sign-extend) "
+        "describe Expression.switch_endian / SwitchEndian; a shortcut in a "
+        "subclass - copying raw bytes between variables of one byte order, "
+        "say - is outside them",
+        analysed=(E + "Constant.switch_endian",))
     from .c01 import store_immediate, r5_endian
     # the whole load route first (operand as Memory.calculate builds it),
     # then calculate_unary on its own
